@@ -297,6 +297,29 @@ def field_input_system(rng, name='fld'):
     return System(comp, name=name), None
 
 
+def two_field_input_system(rng, name='fld2'):
+    """one component with a scalar input and TWO field-quantity inputs (SVD-compressed) -> scalar output: sample_inputs has to draw the
+    field quantities in a defined order.  Deterministic construction data."""
+    from amisc import Component, System, Variable
+    from amisc.compression import SVD
+    grid = np.linspace(-1.0, 1.0, 10)
+    rs = np.random.RandomState(rng.randint(0, 10 ** 6))
+    a = rs.rand(12); b = 1.0 + rs.rand(12)
+    data1 = a[:, None] * np.sin(grid) + b[:, None] * np.cos(grid)
+    data2 = b[:, None] * np.sin(2 * grid) + a[:, None] * (1.0 + grid ** 2)
+    press = Variable('press', compression=SVD(rank=2, data_matrix=data1.T, coords=grid))
+    temp = Variable('temp', compression=SVD(rank=2, data_matrix=data2.T, coords=grid))
+    d = Variable('d', distribution='U(0, 1)')
+    amp = Variable('amp', domain=(-40.0, 40.0))
+
+    def model(inputs, press_coords=None, temp_coords=None):
+        dd = np.atleast_1d(np.asarray(inputs['d'], dtype=float))
+        pf = np.atleast_1d(np.asarray(inputs['press'], dtype=float)); tf = np.atleast_1d(np.asarray(inputs['temp'], dtype=float))
+        return {'amp': dd * np.mean(pf, axis=-1) + 0.5 * dd ** 2 + np.mean(tf * tf, axis=-1)}
+    comp = Component(model, [d, press, temp], [amp], name='fq2', data_fidelity=(1, 1, 1), vectorized=True)
+    return System(comp, name=name), None
+
+
 def persist_chain_system(rng, ncomp=None, name='ps', with_alpha=True, norms=False, serial=False, max_level=2, no_surrogate_prob=0.0,
                          root_dir=None, costs=False, grid_opts=False):
     """like random_chain_system but with module-level models (models_lib.poly_model + model kwargs), so the system can be
